@@ -49,7 +49,7 @@ FAMILIES = {
                  ("n:y", "y", [("string.split", ",")], False, False),
                  ("n:u", "y", [("string.to_upper", None)], False, True),
                  ("n:w", "x", [("string.split", None)], False, False)],      # "" -> [] (falsy, unhashable)
-        "lines": ["a;0", "b;", "a;1", "b;1", "a;2", "b;2;p,q", "c;1;p,q", "c;;p", "a;1;p,q", "b;;q,p", "#x", "", "bad line",
+        "lines": ["a;0", "b;", "a;1", "b;1", "a;2", "b;2;p,q", "c;1;p,q", "c;;p", "a;1;p,q", "b;;q,p", "#x", "", " ", "\t", "bad line",
                   "a;1\x0c", "#\x85x", "c;2;p", "b;9", "b;9;p,q", "a;2;p,q"],
         "finds": [("n:w", []), ("n:w", ["1"]), ("n:w", ["0"]), ("x", "0"), ("x", "1"), ("x", "2"), ("x", ""), ("n:y", ["p", "q"]), ("n:y", ["p"]), ("n:u", None),
                   ("n:u", "P,Q"), ("x", None), ("zz", "1"), ("n:y", "p,q"), ("n:y", None), ("n", "1"), ("x", 1),
@@ -66,7 +66,7 @@ FAMILIES = {
                  ("w", 3, [], False, False),
                  ("w:b:c", 2, [("string.add_prefix", "P")], False, False),
                  ("", 2, [], False, True)],
-        "lines": ["a 0", "b 00", "c 0", "a 1", "A 1", "b x", "B  2", "c ", "a ,5", "b 1,5", "c x", "C 01", "", "#", "a 1 ", "c  ,7", "b 2"],
+        "lines": ["a 0", "b 00", "c 0", "a 1", "A 1", "b x", "B  2", "c ", "a ,5", "b 1,5", "c x", "C 01", "", " ", "#", "a 1 ", "c  ,7", "b 2"],
         "finds": [("v", 0), ("v", "0"), ("", "0"), ("w:b:c", "P0"), ("v", 1), ("v", "1"), ("v", "x"), ("v", 2), ("w:a", "None"), ("w:a", "5"), ("w", "5"),
                   ("w:b:c", "P1"), ("w:b:c", "Px"), ("", None), ("", "1"), ("w", None), ("v", None), ("v", [1])],
         "gets": ["a.d", "b.d", "c.d", "a", "A.d"],
@@ -107,7 +107,42 @@ FAMILIES = {
         "gets": ["a", ["a"]],
         "alt_sid": (3, [], True),        # variant: optional group as system id with transform_none_value
     },
+    # configuration values that are falsy but meaningful: "" as ignore expression (ignores exactly the empty lines),
+    # group number 0 (the whole line) as system id and as variable source, "" as transformation argument, "" as
+    # variable key and as last key component; fields may hold any character
+    "falsy_cfg": {
+        "re": r"([a-c]*)(?:=(.*))?",
+        "ign": "",
+        "sid": (0, [("string.add_suffix", "")], False),
+        "vars": [("", 1, [], False, False), ("z", 0, [("string.add_prefix", "")], False, False), ("n:", 2, [], False, True)],
+        "lines": ["", " ", "a", "a=1", "=", "=0", "b=", "a=1 ", "\t", "c=00", "ab", "a=\x01\x7f", "b= ", "c=\xa0\xff", "a==",
+                  "a=\x0b\x0c", "d", "a=0"],
+        "finds": [("", "a"), ("", ""), ("z", "a=1"), ("z", "="), ("n:", "1"), ("n:", ""), ("n:", None), ("n:", "0"), ("n:", " "),
+                  ("n", "1"), ("z", "")],
+        "gets": ["a", "a=1", "", "=", "b=", " ", "=0", "a=0"],
+    },
+    # the numbered family with "" as ignore expression: its empty lines are ignored lines, not mismatches
+    "empty_ignore": {
+        "re": r"([A-Ca-c]+) +([0-9]+|[x-z]+)?(?: *,([0-9]+))?",
+        "ign": "",
+        "sid": (1, [("string.to_lower", None)], False),
+        "vars": [("v", 2, [("misc.to_int", None)], False, False), ("w", 3, [], False, True)],
+        "lines": ["a 0", "", "b x", " ", "c ,5", "", "a 1", "\t", "B 2", "#"],
+        "finds": [("v", 0), ("v", "x"), ("w", None), ("w", "5"), ("v", 1)],
+        "gets": ["a", "b", "c", ""],
+    },
+    # "" as regular expression (matches exactly the empty lines), no ignore expression, empty variables dict
+    "empty_re": {
+        "re": "",
+        "ign": None,
+        "sid": (0, [], False),
+        "vars": [],
+        "lines": ["", " ", "x", "", "\t"],
+        "finds": [("", ""), ("x", None)],
+        "gets": ["", " ", "x"],
+    },
 }
+MAIN_FAMS = ["named", "numbered", "optional_id", "pipes", "falsy_cfg", "empty_ignore", "empty_re"]
 
 
 def _fn(name):
@@ -565,7 +600,7 @@ class C14(Check):
                    "init": ("text", txt), "hist": [("get", "a.d"), ("get", "b.d")]}
         # 2b. edits that keep parts of the stat version: same-size in-place rewrite with restored mtime (only ctime
         #     changes), same size + same mtime on a new inode, different size with restored mtime
-        for fam in list(FAMILIES)[:4]:
+        for fam in MAIN_FAMS:
             f = FAMILIES[fam]
             bat = self.battery(f)
             for fl in self.flags():
@@ -586,7 +621,7 @@ class C14(Check):
                     yield case
         # 2c. an edit injected while the long-lived source parses the file (atomic rename and in place, at the first
         #     line and at the end of the load); the following calls must see the new content
-        for fam in list(FAMILIES)[:4]:
+        for fam in MAIN_FAMS:
             f = FAMILIES[fam]
             bat = self.battery(f)
             for fl in self.flags():
@@ -606,7 +641,7 @@ class C14(Check):
         # 2e. fault injection on open / read / stat of the file in ONE call of a long-lived source: with a valid
         #     snapshot the call does not touch the file and answers; otherwise the exception is the result of the
         #     call, nothing of it is remembered, and the following calls are correct
-        for fam in list(FAMILIES)[:4]:
+        for fam in MAIN_FAMS:
             f = FAMILIES[fam]
             bat = self.battery(f)
             for fl in self.flags():
@@ -635,12 +670,22 @@ class C14(Check):
                                "init": ("text", "#c\n" + x + eol),
                                "hist": [("get", sid), ("edit", ("text", y + eol + ("" if eol else "\n") + "c;x;y\n")), ("get", sid),
                                         ("find", "x", "r|7")]}
+        # 2f. legal inputs at and beyond natural limits: long fields, long lines, many lines, many systems
+        for n in ((255, 256, 4096) if quick else (254, 255, 256, 257, 1023, 1024, 4095, 4096, 4097, 8191, 8192, 20000)):
+            long_line = "a;" + "x" * n + ";" + "|" * (n // 2)
+            yield {"fam": "pipes", "cache": True, "ffm": False, "mis": "error", "dup": "error", "omit": True,
+                   "init": ("text", "#c\n" + long_line + "\nb;1;2\n"),
+                   "hist": [("get", "a"), ("find", "x", "x" * n), ("edit", ("text", long_line + "\r\n")), ("get", "a"), ("get", "b")]}
+        for n in ((300,) if quick else (300, 1000, 3000)):
+            body = "".join("a 1\n" if i % 7 else "b %d\n" % i for i in range(n)) + "c x"
+            yield {"fam": "numbered", "cache": True, "ffm": True, "mis": "warn", "dup": "ignore", "omit": False,
+                   "init": ("text", body), "hist": [("get", "a.d"), ("get", "b.d"), ("find", "v", 1), ("find", "v", 7), ("get", "c.d")]}
         # 3. random histories: <= 6 edits interleaved with calls
         n = 5000 if quick else 60000
         fams = list(FAMILIES)
         flags = list(self.flags())
         for _ in range(n):
-            fam = rng.choice(fams[:4]) if rng.random() < 0.92 else "raising"
+            fam = rng.choice(MAIN_FAMS) if rng.random() < 0.92 else "raising"
             f = FAMILIES[fam]
             case = dict(rng.choice(flags), fam=fam, omit=rng.random() < 0.5)
             if fam == "raising" and rng.random() < 0.5:
